@@ -249,9 +249,8 @@ def GoodAlt (es : List Expr) (p : Nat) (res : Res) (evs : List Token) : Prop :=
         ∀ pcko, labelPos code ko = some pcko → Steps P cfg inp code pc s f pcko s'' f''
 
 /-- The loop of `e*` (also the second half of `e+`): labels `again`/`out` allocated anywhere below
-    the body's labels.  The body is compiled without `parentDetect`: `e+` never hands the flags
-    down, and `Lead (.star e)` excludes `parentDetect` (then `parentMultipleKey` is irrelevant,
-    `compile_pd_false`). -/
+    the body's labels.  The body is compiled without `parentDetect`: neither `e+` nor `e*` hands
+    the flags down (the body is re-run at later positions). -/
 def loopCode (e : Expr) (again out : Nat) (stb : CSt) : Code :=
   env.lbl again ++ [Instr.bb, Instr.save out] ++ (compile env e out false false stb).code ++
     [Instr.goto again] ++ env.lbl out ++ [Instr.restore out, Instr.be]
